@@ -13,10 +13,11 @@ Open Scope R_scope.
    energy of the call, each of the seven numbers the model returns (real, imaginary, incoherent SLD;
    coherent, absorption, incoherent cross section; penetration depth) IS the documented equation
    evaluated on the tabulated scattering lengths, cross sections and masses.
-   On the regenerated tables, for every structure with positive counts and masses: *)
+   On the regenerated tables, for every structure with non-negative counts (not all zero: the
+   call returned values, not the vacuum result) and positive masses: *)
 Theorem C03_model_refines_spec_tables : forall s density natural_density ws v rho,
   (forall w, In w ws -> wl_pos w) ->
-  (forall p, In p (atoms_of s) -> (0 < snd p)%Q /\ (0 < e_mass the_env (fst p))%Q) ->
+  (forall p, In p (atoms_of s) -> (0 <= snd p)%Q /\ (0 < e_mass the_env (fst p))%Q) ->
   density_of_compound the_nd s density natural_density = Some rho -> (0 < rho)%Q ->
   neutron_scattering the_nd s density natural_density ws = OVals v ->
   Forall2 (fun w ov => exists l, tab_cell the_nd w (atoms_of s) = Some l /\
@@ -31,7 +32,7 @@ Print Assumptions C03_model_refines_spec_tables.
 Theorem C03_model_refines_spec : forall D s density natural_density ws v rho,
   (forall w, In w ws -> wl_pos w) ->
   (forall p, In p (atoms_of s) ->
-     (0 < snd p)%Q /\ (0 < e_mass (nd_env D) (fst p))%Q
+     (0 <= snd p)%Q /\ (0 < e_mass (nd_env D) (fst p))%Q
      /\ (has_data D (fst p) = true -> rec_okb D (az (fst p)) (aa (fst p)) = true)) ->
   density_of_compound D s density natural_density = Some rho -> (0 < rho)%Q ->
   neutron_scattering D s density natural_density ws = OVals v ->
